@@ -42,10 +42,10 @@ func (e *NestExpr) Eval(ctx context.Context, local Scope) (Value, error) {
 			return nil, err
 		}
 		attrs := e.attrs
+		if err := validNestOp(relAttrs, attrs); err != nil {
+			return nil, WrapContextErr(err, e, local)
+		}
 		if e.inverse {
-			if err := validNestOp(relAttrs, attrs); err != nil {
-				return nil, WrapContextErr(err, e, local)
-			}
 			attrs = relAttrs.Minus(attrs)
 			if !attrs.IsTrue() {
 				return nil, WrapContextErr(
